@@ -1,0 +1,24 @@
+//go:build verif
+
+package verifhook
+
+import (
+	"github.com/emmansun/gmsm/ecdh"
+	"github.com/emmansun/gmsm/internal/sm9"
+	"github.com/emmansun/gmsm/internal/sm9/bn256"
+	"github.com/emmansun/gmsm/sm2"
+	"github.com/emmansun/gmsm/sm2/sm2ec"
+	"github.com/emmansun/gmsm/smx509"
+)
+
+// SetGate installs f as the gate called at every lazy-initialisation point of the library
+// ("init:<site>" on entering a sync.Once body, "inited:<site>" on leaving it, "done:<site>" right
+// after Do returned). nil removes it.
+func SetGate(f func(site string)) {
+	sm2.VerifGate = f
+	ecdh.VerifGate = f
+	sm9.VerifGate = f
+	bn256.VerifGate = f
+	sm2ec.VerifGate = f
+	smx509.VerifGate = f
+}
